@@ -224,21 +224,35 @@ func (r *recorder) compareTree() {
 	if r.mismatch != "" {
 		return
 	}
+	// an operation is logged before it executes: the latest operations of OTHER goroutines (gc.clean's unlink, the
+	// asynchronous part removal) may not have reached the disk yet, so paths they touch are not compared
+	recent := map[string]bool{}
+	for i := len(r.log) - 1; i >= 0 && i >= len(r.log)-4; i-- {
+		recent[r.log[i].Path] = true
+		if r.log[i].To != "" {
+			recent[r.log[i].To] = true
+		}
+	}
+	for d := range r.removing {
+		recent[d] = true
+	}
+	skip := func(p string) bool {
+		for d := range recent {
+			if p == d || strings.HasPrefix(p, d+"/") {
+				return true
+			}
+		}
+		return false
+	}
 	disk := map[string]bool{}
 	for _, p := range measure.VerifListTree(r.root) {
 		p = strings.TrimSuffix(p, "/")
-		gone := false
-		for d := range r.removing {
-			if p == d || strings.HasPrefix(p, d+"/") {
-				gone = true
-			}
-		}
-		if !gone {
+		if !skip(p) {
 			disk[p] = true
 		}
 	}
 	for p := range r.vol {
-		if !disk[p] {
+		if !disk[p] && !skip(p) {
 			r.mismatch = fmt.Sprintf("before syscall %d: %s is in the mirror but not on disk", len(r.log), p)
 			return
 		}
